@@ -54,6 +54,99 @@ func firstUpgradeBaseline(p *Prog, pkgPath string) ([]string, string) {
 			return true
 		})
 	}
+	if n == 0 {
+		// the map may be built from a list of names: exactly one list literal of constant strings, ranged over by a loop that
+		// assigns into a map[string]uint64 under the loop variable
+		var lists [][]string
+		var listObjs []types.Object
+		for _, f := range pk.Syntax {
+			ast.Inspect(f, func(nd ast.Node) bool {
+				vs, ok := nd.(*ast.ValueSpec)
+				if !ok || len(vs.Names) != 1 || len(vs.Values) != 1 {
+					return true
+				}
+				cl, ok := vs.Values[0].(*ast.CompositeLit)
+				if !ok {
+					return true
+				}
+				tv, ok := pk.TypesInfo.Types[cl]
+				if !ok {
+					return true
+				}
+				var elem types.Type
+				switch u := tv.Type.Underlying().(type) {
+				case *types.Slice:
+					elem = u.Elem()
+				case *types.Array:
+					elem = u.Elem()
+				default:
+					return true
+				}
+				if b, ok := elem.Underlying().(*types.Basic); !ok || b.Kind() != types.String {
+					return true
+				}
+				var names []string
+				for _, e := range cl.Elts {
+					etv, ok := pk.TypesInfo.Types[e]
+					if !ok || etv.Value == nil || etv.Value.Kind() != constant.String {
+						return true
+					}
+					names = append(names, constant.StringVal(etv.Value))
+				}
+				lists = append(lists, names)
+				listObjs = append(listObjs, pk.TypesInfo.Defs[vs.Names[0]])
+				return true
+			})
+		}
+		if len(lists) == 1 && listObjs[0] != nil {
+			fills := false
+			for _, f := range pk.Syntax {
+				ast.Inspect(f, func(nd ast.Node) bool {
+					rs, ok := nd.(*ast.RangeStmt)
+					if !ok {
+						return true
+					}
+					id, ok := rs.X.(*ast.Ident)
+					if !ok || pk.TypesInfo.Uses[id] != listObjs[0] {
+						return true
+					}
+					val, _ := rs.Value.(*ast.Ident)
+					if val == nil {
+						return true
+					}
+					ast.Inspect(rs.Body, func(n2 ast.Node) bool {
+						as, ok := n2.(*ast.AssignStmt)
+						if !ok || len(as.Lhs) != 1 {
+							return true
+						}
+						ix, ok := as.Lhs[0].(*ast.IndexExpr)
+						if !ok {
+							return true
+						}
+						mtv, ok := pk.TypesInfo.Types[ix.X]
+						if !ok {
+							return true
+						}
+						mt, ok := mtv.Type.Underlying().(*types.Map)
+						if !ok {
+							return true
+						}
+						kb, ok1 := mt.Key().Underlying().(*types.Basic)
+						eb, ok2 := mt.Elem().Underlying().(*types.Basic)
+						kid, ok3 := ix.Index.(*ast.Ident)
+						if ok1 && ok2 && ok3 && kb.Kind() == types.String && eb.Kind() == types.Uint64 && pk.TypesInfo.Uses[kid] == pk.TypesInfo.Defs[val] {
+							fills = true
+						}
+						return true
+					})
+					return true
+				})
+			}
+			if fills {
+				return lists[0], ""
+			}
+		}
+	}
 	if n != 1 {
 		return nil, fmt.Sprintf("%d version-map literals in the first upgrade package (expected exactly 1)", n)
 	}
@@ -246,7 +339,25 @@ func checkC19(p *Prog, r *Report) {
 			args := cs.Instr.Common().Args
 			okArg, why := false, "the second argument is not the address of a descriptor's StoreUpgrades field"
 			if len(args) == 2 {
-				if fa2, ok := args[1].(*ssa.FieldAddr); ok && fieldName(fa2.X.Type(), fa2.Field) == "StoreUpgrades" {
+				fa2, ok := args[1].(*ssa.FieldAddr)
+				if !ok {
+					// a local copy of the field: `su := u.StoreUpgrades; … &su` (the only store into the local is that load)
+					if al, isAl := args[1].(*ssa.Alloc); isAl && al.Referrers() != nil {
+						nSt := 0
+						for _, rf := range *al.Referrers() {
+							if st, isSt := rf.(*ssa.Store); isSt && st.Addr == ssa.Value(al) {
+								nSt++
+								if ld, isLd := st.Val.(*ssa.UnOp); isLd && ld.Op == token.MUL {
+									fa2, ok = ld.X.(*ssa.FieldAddr)
+								}
+							}
+						}
+						if nSt != 1 {
+							ok = false
+						}
+					}
+				}
+				if ok && fa2 != nil && fieldName(fa2.X.Type(), fa2.Field) == "StoreUpgrades" {
 					base := fa2.X
 					why = "no dominating comparison of the same descriptor's UpgradeName with the plan name read from disk"
 					for _, b := range fn.Blocks {
@@ -257,7 +368,7 @@ func checkC19(p *Prog, r *Report) {
 							}
 							for _, opd := range []ssa.Value{bo.X, bo.Y} {
 								if u, ok := opd.(*ssa.UnOp); ok && u.Op == token.MUL {
-									if nf, ok := u.X.(*ssa.FieldAddr); ok && nf.X == base && fieldName(nf.X.Type(), nf.Field) == "UpgradeName" {
+									if nf, ok := u.X.(*ssa.FieldAddr); ok && sameElementRef(nf.X, base) && fieldName(nf.X.Type(), nf.Field) == "UpgradeName" {
 										if iff, ok := b.Instrs[len(b.Instrs)-1].(*ssa.If); ok && iff.Cond == bo {
 											// `if name == u.UpgradeName { … }` or `if name != u.UpgradeName { continue }`
 											eqSide := b.Succs[0]
@@ -935,4 +1046,26 @@ func checkModuleMigrationsWriteNoData(p *Prog, r *Report, kp func(string, string
 		}
 	}
 	r.Count("module-migrations-registered", n)
+}
+
+
+// sameElementRef: two addresses name the same element — the same value, or two IndexAddr of loads of the same package variable
+// under the same index value (`Upgrades[i]` written twice).
+func sameElementRef(a, b ssa.Value) bool {
+	if a == b {
+		return true
+	}
+	ia, ok1 := a.(*ssa.IndexAddr)
+	ib, ok2 := b.(*ssa.IndexAddr)
+	if !ok1 || !ok2 || ia.Index != ib.Index {
+		return false
+	}
+	la, ok1 := ia.X.(*ssa.UnOp)
+	lb, ok2 := ib.X.(*ssa.UnOp)
+	if !ok1 || !ok2 {
+		return ia.X == ib.X
+	}
+	ga, ok1 := la.X.(*ssa.Global)
+	gb, ok2 := lb.X.(*ssa.Global)
+	return ok1 && ok2 && ga == gb
 }
